@@ -37,8 +37,11 @@ def input_matrix(ex, st, name, nrows=None, ncols=None, tc='d', sparse=False):
     for v in (nr, nc):
         if isinstance(v, I):
             ex.axioms.append(v.t >= 0)
-    return L.new_matrix(ex, st, nr, nc, tc, owner='INPUT:' + name,
-                        sparse=sparse, name=name)
+    r_ = L.new_matrix(ex, st, nr, nc, tc, owner='INPUT:' + name,
+                      sparse=sparse, name=name)
+    if ex.cfg.get('algebra'):
+        st.heap[r_.oid].f['val'] = {name: z3.RealVal(1)}
+    return r_
 
 
 def symlist(ex, st, name, lo, owner):
@@ -539,6 +542,8 @@ def check_result(ex, st, d, status, line, fname, fields, statuses, tol_names,
     handled = [h for h in st.handled if h[0] == 'ArithmeticError']
     vecs = [k for k in ('x', 'y', 's', 'z', 'sl', 'snl', 'zl', 'znl')
             if k in d]
+    if ex.cfg.get('algebra') and fname in ('conelp', 'coneqp'):
+        algebra_checks(ex, st, d, status, fname, fid0, ob)
     if status == 'optimal':
         ob('optimal-not-after-failure', not handled,
            "status 'optimal' is not returned on a path that caught "
@@ -702,6 +707,10 @@ FUNCS = {
     'conelp': {'setup': conelp_setup, 'scenarios': CONELP_SCENARIOS,
                'on_outcomes': conelp_on_outcomes,
                'config': {'unroll': 4}},
+    'conelp#algebra': {'function': 'conelp', 'setup': conelp_setup,
+                       'scenarios': {'defaults': {}},
+                       'on_outcomes': conelp_on_outcomes,
+                       'config': {'unroll': 4, 'algebra': True}},
     'coneqp': {'setup': coneqp_setup, 'scenarios': CONEQP_SCENARIOS,
                'on_outcomes': coneqp_on_outcomes,
                'config': {'unroll': 4}},
@@ -733,3 +742,156 @@ def pre_call_lower_only(ex, st, name, args, kwargs, n):
 
 
 L.hooks['pre_call'] = pre_call_lower_only
+
+
+# --------------------------------------------------------------- G4 algebra
+from contracts.py import algebra as alg
+
+
+def loop_assume(ex, st, fid, s):
+    """numerical invariant of the homogeneous self-dual embedding that the
+    rescalings rely on: tau > 0 (ASSUMED, listed)"""
+    if not ex.cfg.get('algebra'):
+        return
+    if isinstance(s, ast.For) and isinstance(s.target, ast.Name) and \
+            s.target.id == 'iters':
+        tau = lookup_opt(ex, st, fid, 'tau')
+        if isinstance(tau, (R, I)):
+            st.pc.append(ex.num(st, tau)[1] > 0)
+            ex.trusted.add('assumption: tau > 0 at the head of every conelp '
+                           'iteration (numerical invariant of the embedding)')
+
+
+L.hooks['loop_assume'] = loop_assume
+
+
+def opname(st, v, fallback):
+    if is_matrix(st, v):
+        return mat(st, v).meta.get('name') or 'M%d' % v.oid
+    return fallback
+
+
+def norm_def(hyp, t, tag):
+    """fresh r with r >= 0 and r*r == t (added to the hypotheses)"""
+    r = z3.Real('norm!' + tag)
+    hyp.append(z3.And(r >= 0, r * r == t))
+    return r
+
+
+def zmaxr(a, b):
+    return z3.If(a >= b, a, b)
+
+
+def algebra_checks(ex, st, d, status, fname, fid0, ob):
+    """the accuracy fields of the result equal the documented expressions
+    recomputed from the *returned* vectors and the caller's data"""
+    F = lambda nm: lookup_opt(ex, st, fid0, nm)
+    X, Y = alg.valof(st, d.get('x')), alg.valof(st, d.get('y'))
+    S, Z = alg.valof(st, d.get('s')), alg.valof(st, d.get('z'))
+    cn = 'c' if fname == 'conelp' else 'q'
+    c = alg.valof(st, F(cn))
+    b, h = alg.valof(st, F('b')), alg.valof(st, F('h'))
+    An, Gn = opname(st, F('A'), 'A'), opname(st, F('G'), 'G')
+
+    def num(key):
+        try:
+            k, t = ex.num(st, d[key])
+            return z3.ToReal(t) if k == 'int' else t
+        except Exception:
+            return None
+
+    def obl(text, hyp, goal, need):
+        if any(x is None for x in need):
+            ob('field-recomputed', False, text + ' (the value of a returned '
+               'vector is not tracked on this path)')
+            return
+        ob('field-recomputed', z3.Implies(z3.And(hyp) if hyp else
+                                          z3.BoolVal(True), goal), text)
+    add, sc, ap, ip = alg.add, alg.scale, alg.apply_op, alg.inner
+    m1 = z3.RealVal(-1)
+    if status in ('optimal', 'unknown'):
+        if fname == 'conelp':
+            f = num('primal objective')
+            obl("result['primal objective'] == c'x for the returned x",
+                [], f == ip('ip', c, X) if None not in (f, c, X) else None,
+                [f, c, X])
+            f = num('dual objective')
+            obl("result['dual objective'] == -b'y - h'z for the returned "
+                "y, z", [], f == -ip('ip', b, Y) - ip('sip', h, Z)
+                if None not in (f, b, Y, h, Z) else None, [f, b, Y, h, Z])
+            rx = add(add(ap(Y, An + 't'), ap(Z, Gn + 't')), c)
+        else:
+            PX = ap(X, opname(st, F('P'), 'P'))
+            f = num('primal objective')
+            obl("result['primal objective'] == (1/2)x'Px + q'x", [],
+                f == ip('ip', X, PX) / 2 + ip('ip', c, X)
+                if None not in (f, c, X) else None, [f, c, X])
+            rx = add(add(add(PX, c), ap(Y, An + 't')), ap(Z, Gn + 't'))
+        f = num('dual infeasibility')
+        hyp = []
+        if None not in (rx, c, f):
+            nr = norm_def(hyp, ip('ip', rx, rx), 'rx')
+            nc = norm_def(hyp, ip('ip', c, c), cn)
+            obl("result['dual infeasibility'] == ||%sA'y + G'z + %s|| / "
+                "max(1,||%s||) for the returned y, z" % (
+                    'Px + ' if fname != 'conelp' else '', cn, cn),
+                hyp, f == nr / zmaxr(1, nc),
+                [f])
+        else:
+            obl("result['dual infeasibility'] is the recomputed residual",
+                [], None, [None])
+        ry = add(ap(X, An), sc(b, m1))
+        rz = add(add(ap(X, Gn), S), sc(h, m1))
+        f = num('primal infeasibility')
+        hyp = []
+        if None not in (ry, rz, b, h, f):
+            n1 = norm_def(hyp, ip('ip', ry, ry), 'ry')
+            n2 = norm_def(hyp, ip('sip', rz, rz), 'rz')
+            nb = norm_def(hyp, ip('ip', b, b), 'b')
+            nh = norm_def(hyp, ip('sip', h, h), 'h')
+            obl("result['primal infeasibility'] == max(||Ax-b||/max(1,||b||)"
+                ", ||Gx+s-h||/max(1,||h||)) for the returned x, s", hyp,
+                f == zmaxr(n1 / zmaxr(1, nb), n2 / zmaxr(1, nh)), [f])
+        else:
+            obl("result['primal infeasibility'] is the recomputed residual",
+                [], None, [None])
+    elif status == 'primal infeasible':
+        hyp = []
+        if None not in (h, Z, b, Y):
+            obl("h'z + b'y == -1 for the returned certificate", [],
+                ip('sip', h, Z) + ip('ip', b, Y) == -1, [1])
+        else:
+            obl("h'z + b'y == -1 for the returned certificate", [], None,
+                [None])
+        w = add(ap(Z, Gn + 't'), ap(Y, An + 't'))
+        f = num('residual as primal infeasibility certificate')
+        if None not in (w, c, f):
+            nw = norm_def(hyp, ip('ip', w, w), 'w')
+            nc = norm_def(hyp, ip('ip', c, c), 'c')
+            obl("result['residual as primal infeasibility certificate'] == "
+                "||G'z + A'y|| / max(1,||c||)", hyp, f == nw / zmaxr(1, nc),
+                [f])
+        else:
+            obl('certificate residual is the recomputed one', [], None,
+                [None])
+    elif status == 'dual infeasible':
+        hyp = []
+        if None not in (c, X):
+            obl("c'x == -1 for the returned certificate", [],
+                ip('ip', c, X) == -1, [1])
+        else:
+            obl("c'x == -1 for the returned certificate", [], None, [None])
+        r1 = add(ap(X, Gn), S)
+        r2 = ap(X, An)
+        f = num('residual as dual infeasibility certificate')
+        if None not in (r1, r2, h, b, f):
+            n1 = norm_def(hyp, ip('sip', r1, r1), 'r1')
+            n2 = norm_def(hyp, ip('ip', r2, r2), 'r2')
+            nb = norm_def(hyp, ip('ip', b, b), 'b')
+            nh = norm_def(hyp, ip('sip', h, h), 'h')
+            obl("result['residual as dual infeasibility certificate'] == "
+                "max(||Gx+s||/max(1,||h||), ||Ax||/max(1,||b||))", hyp,
+                f == zmaxr(n1 / zmaxr(1, nh), n2 / zmaxr(1, nb)), [f])
+        else:
+            obl('certificate residual is the recomputed one', [], None,
+                [None])
